@@ -123,10 +123,10 @@ def judge(spec, obs):
 def run(tier, seed, model):
     camp = common.Campaign()
     rng = random.Random(seed * 7919 + 11)
-    n = 14 if tier == "quick" else 120
+    n = 15 if tier == "quick" else 120
     specs = []
     for i in range(n):
-        kinds = ["one", "two", "refuse", "needpw", "mixed", "burst", "frames", "unixstale", "straddle", "realops", "two", "one", "burst", "frames"]
+        kinds = ["one", "two", "refuse", "needpw", "mixed", "burst", "frames", "unixstale", "straddle", "realops", "slowstart", "two", "one", "burst", "frames"]
         kind = kinds[i] if i < len(kinds) else rng.choice(kinds)
         clients = []
         if kind == "burst":
@@ -164,6 +164,12 @@ def run(tier, seed, model):
                 calls.insert(1, {"method": "mouseDrag", "args": [3, 0, 1], "sleep": 0, "exp": ["ret", "obj"], "async": 0})
             calls.append({"method": "keyPress", "args": ["z"], "sleep": 0, "exp": ["ret", "obj"], "async": 0})
             clients.append({"id": 1, "server": "ok", "calls": calls})
+        elif kind == "slowstart":
+            # the very first calls of the process are made while the reactor thread is still starting
+            calls = gen_calls(rng, 100, rng.randrange(3, 7))
+            for cc in calls[:2]:
+                cc["sleep"] = 0
+            clients.append({"id": 1, "server": "ok", "calls": calls})
         elif kind == "straddle":
             # api.connect(timeout=T) bounds each CALL: an operation in flight T seconds after the connection was made is not
             # affected by that instant
@@ -195,7 +201,8 @@ def run(tier, seed, model):
         else:
             clients.append({"id": 1, "server": "ok", "calls": gen_calls(rng, 100, rng.randrange(3, 8))})
             clients.append({"id": 2, "server": rng.choice(["refuse", "needpw"]), "calls": gen_calls(rng, 500, 3)})
-        specs.append({"repo": common.REPO, "harness": common.VERIF + "/harness", "clients": clients, "timeout": 4, "kind": kind})
+        specs.append({"repo": common.REPO, "harness": common.VERIF + "/harness", "clients": clients, "timeout": 4, "kind": kind,
+                      "slow_start": 0.7 if kind == "slowstart" else 0})
     with ThreadPoolExecutor(max_workers=8) as ex:
         obs = list(ex.map(run_child, specs))
     reqs, meta = [], []
